@@ -335,6 +335,25 @@ def prefdef(opt=SHARED_DEFAULT, opt_extra=None, opt2=None, other=None):
   return _r.rec('prefdef', locals())
 
 
+class IdObj:
+  """Compared by identity (no __eq__): a copy of it is a different value."""
+
+  def __init__(self, name):
+    self.name = name
+
+  def __repr__(self):
+    return f'IdObj({self.name})'
+
+
+ID_DEFAULT = IdObj('default')
+_MISSING_SENTINEL = object()
+
+
+def iddef(a=ID_DEFAULT, b=_MISSING_SENTINEL, c=1, child=None):
+  """Defaults that are identity-compared objects (a sentinel, a plain instance)."""
+  return _r.rec('iddef', locals())
+
+
 def mutdef(a=SHARED_DEFAULT, b=SHARED_DEFAULT, c=(1, 2), d=None):
   """Defaults that are a shared mutable object."""
   return _r.rec('mutdef', locals())
